@@ -132,6 +132,8 @@ impl LogWriter for MultiWriter {
     }
 
     fn write(&self, now: &mut DeferredNow, record: &Record) -> std::io::Result<()> {
+        // every output is served, also if another one fails; the first error is returned
+        let mut result: std::io::Result<()> = Ok(());
         if match self.duplication_to_stderr() {
             Duplicate::Error => record.level() == log::Level::Error,
             Duplicate::Warn => record.level() <= log::Level::Warn,
@@ -146,14 +148,15 @@ impl LogWriter for MultiWriter {
                     .unwrap_or_else(|e| eprint_err(ErrorCode::Format, "formatting failed", &e));
                 eprintln!("{}", String::from_utf8_lossy(&tmp_buf));
             } else {
-                write_buffered(
+                let res = write_buffered(
                     self.format_for_stderr,
                     now,
                     record,
                     &mut std::io::stderr(),
                     #[cfg(test)]
                     None,
-                )?;
+                );
+                result = result.and(res);
             }
         }
 
@@ -171,24 +174,27 @@ impl LogWriter for MultiWriter {
                     .unwrap_or_else(|e| eprint_err(ErrorCode::Format, "formatting failed", &e));
                 println!("{}", String::from_utf8_lossy(&tmp_buf));
             } else {
-                write_buffered(
+                let res = write_buffered(
                     self.format_for_stdout,
                     now,
                     record,
                     &mut std::io::stdout(),
                     #[cfg(test)]
                     None,
-                )?;
+                );
+                result = result.and(res);
             }
         }
 
         if let Some(ref writer) = self.o_file_writer {
-            writer.write(now, record)?;
+            let res = writer.write(now, record);
+            result = result.and(res);
         }
         if let Some(ref writer) = self.o_other_writer {
-            writer.write(now, record)?;
+            let res = writer.write(now, record);
+            result = result.and(res);
         }
-        Ok(())
+        result
     }
 
     /// Provides the maximum log level that is to be written.
